@@ -4,7 +4,7 @@
    correspondence run.  DEFINITIONS ONLY. *)
 From Coq Require Import NArith ZArith List Bool.
 Import ListNotations.
-From PV Require Import Yanny.Bytes Yanny.Types Yanny.Parse Yanny.Render.
+From PV Require Import Yanny.Bytes Yanny.Types Yanny.Parse Yanny.Render C01.PyRt Generated.YannyWriter C01.GenWriter C01.FloatFrag.
 Open Scope N_scope.
 
 Inductive case :=
@@ -12,7 +12,12 @@ Inductive case :=
      that file (None: it raised) *)
   | CWrite (d : doc) (file : option bytes) (impl : option pdoc)
   (* a document with an unsupported column type; did the real writer refuse (raise, no file)? *)
-  | CRefuse (d : doc) (refused : bool).
+  | CRefuse (d : doc) (refused : bool)
+  (* round 5: structnames=None -- the table names of the object the real writer returned for n tables *)
+  | CDefaultNames (n : nat) (names : list bytes)
+  (* round 5: a float of the fragment (NaN, infinities, signed integer-valued): the text numpy printed for it, and what
+     float() made of that text, classified back into the fragment by the harness (None: outside the fragment) *)
+  | CFloatText (t : btype) (x : ffrag) (numpy_text : bytes) (reread : option ffrag).
 
 (* verdict: +1 model differs from implementation (+8 the writer model, +16 the reader model),
             +2 the implementation's result contradicts the specification sem (failing input),
@@ -29,7 +34,14 @@ Definition run_case (c : case) : Z :=
       ((if m_render && m_parse then 0 else 1) + (if m_render then 0 else 8) + (if m_parse then 0 else 16)
        + (if spec then 0 else 2) + (if doc_ok d then 0 else 4))%Z
   | CRefuse d refused =>
-      let m := match render_checked d with None => refused | Some _ => negb refused end in
+      (* the GENERATED writer (Generated/YannyWriter.v through Bridge.gen_render) must refuse as well *)
+      let m := match render_checked d, gen_render d with None, None => refused | Some _, Some _ => negb refused | _, _ => false end in
       ((if m then 0 else 1) + (if refused then 0 else 2))%Z
+  | CDefaultNames n names => if list_eqb beq (default_names n) names then 0%Z else 1%Z
+  | CFloatText t x txt back =>
+      let m := frag_show_matches t x txt && frag_parse_matches t txt back in
+      (* the property on the real code: the text read back is the value *)
+      let ok := match back with Some y => ffrag_eqb x y | None => false end in
+      ((if m then 0 else 1) + (if ok then 0 else 2))%Z
   end.
 Definition run_cases (l : list case) : list Z := map run_case l.
